@@ -5,7 +5,8 @@ Inductive case :=
 | CMachine (es : list fentry) (first_code : option (N * N)) (ds : list diag) (inv_sev : severity)
            (impl : option (list (out * severity)))
 | CParse (comment : list N) (impl : option (list fconf))
-| CFull (evs : list event) (first_code : option (N * N)) (raw : list diag) (impl : list (out * severity)).
+| CFull (evs : list event) (first_code : option (N * N)) (raw : list diag) (impl : list (out * severity))
+        (all_comments : list (N * N * list (list N))).
 
 Definition lint_names : list string := map (fun x => fst (fst x)) lint_table.
 
@@ -72,7 +73,7 @@ Definition check_case (c : case) : N * N :=
                   | None, None => true
                   | _, _ => false end in
       ((bit (negb corr) 1)%N, 0%N)
-  | CFull evs fc raw impl =>
+  | CFull evs fc raw impl comments =>
       match collect lint_names evs with
       | None => (1%N, 0%N)
       | Some es =>
@@ -85,7 +86,17 @@ Definition check_case (c : case) : N * N :=
           let impl_fails := flat_map (fun o => match fst o with OFail f => [f] | _ => [] end) impl in
           let spec_d := list_eqb diag_eqb (spec_diags (oks es) fc raw) impl_diags in
           let spec_f := list_eqb failure_eqb (spec_failures es fc) impl_fails in
-          ((bit (negb corr) 1 + bit (negb wf) 2 + bit (wf && negb spec_d) 4 + bit (wf && negb spec_f) 8)%N, 0%N)
+          (* every comment of the file that contains a well-formed filter line must be claimed by a
+             visited node; one that is not (it sits before else/end/until/`}` or after code on the
+             same line) is class F2 *)
+          let is_filter := fun c : N * N * list (list N) =>
+            existsb (fun line => match parse_comment line with Some _ => true | None => false end) (snd c) in
+          let claimed := fun c : N * N * list (list N) =>
+            existsb (fun ev => negb (ev_block ev)
+                               && existsb (fun c' => range_eqb (fst c') (fst c)) (ev_comments ev)) evs in
+          let f2 := existsb (fun c => is_filter c && negb (claimed c)) comments in
+          ((bit (negb corr) 1 + bit (negb wf) 2 + bit (wf && negb spec_d) 4 + bit (wf && negb spec_f) 8)%N,
+           bit f2 1)
       end
   end.
 
